@@ -58,6 +58,13 @@ class Resident:
         _self_is_mdib[0] = self.self_is_mdib
         if isinstance(v, ast.IfExp):
             return self._is_table_value(v.body) and self._is_table_value(v.orelse)
+        if isinstance(v, ast.Call) and isinstance(v.func, ast.Name):
+            # a local helper function that returns one of the tables
+            for d in ast.walk(self.fn):
+                if isinstance(d, ast.FunctionDef) and d.name == v.func.id and d is not self.fn:
+                    rets = [r.value for r in ast.walk(d) if isinstance(r, ast.Return) and r.value is not None]
+                    return bool(rets) and all(self._is_table_value(r) for r in rets)
+            return False
         return isinstance(v, ast.Attribute) and v.attr in TABLES and is_table_expr(v)
 
     def is_table(self, e) -> bool:
